@@ -168,3 +168,16 @@ func C06CrossConv() {
 	vrt.AssertMsg("emitted-functions-type-check", v == "", v)
 	vrt.Reach("end")
 }
+
+// C14TypeErrors: a setup file whose converter interface has a type error (here: a duplicate method,
+// which go/types leaves out of the interface) is rejected with a positioned diagnostic - never
+// "success" with a method missing. (A type error elsewhere in the file is not the run's business.)
+func C14TypeErrors() {
+	var texts []string
+	var err error
+	stderr := vrt.CaptureStderr(func() { texts, err = frontHalf("dup") })
+	vrt.SlotText("dup", "D1")
+	vrt.AssertMsg("type-error-in-converter-interface-rejected", err != nil && len(texts) == 0, stderr)
+	vrt.AssertMsg("rejection-has-positioned-diagnostic", positioned(stderr, vrt.SkeletonPath("dup")), stderr)
+	vrt.Reach("end")
+}
